@@ -682,3 +682,138 @@ func (m *Model) RunEvalOrder(s *Sink, rule string) {
 		s.OK(rule, "parser|no literal reads the parser's token next to a call that moves it", "-", "%d composite literals of the parser inspected", lits)
 	}
 }
+
+// hasOperatorField: the AST node is an operator construct (it records its operator: InfixExp, PrefixExp, PostfixExp) —
+// its own token is the operator. Access constructs (index, dot, call) name the faulty thing by their key operand.
+func hasOperatorField(n *types.Named) bool {
+	st, ok := n.Underlying().(*types.Struct)
+	if !ok {
+		return false
+	}
+	for i := 0; i < st.NumFields(); i++ {
+		if canonFieldName(n, i, st.Field(i).Name()) == "Operator" {
+			return true
+		}
+	}
+	return false
+}
+
+// RunErrNode — R-ERRNODE (C13): an error the evaluator raises about a construct carries that construct's own token.
+// The node handed to the evaluator's error constructor is followed back through interface conversions and parameters
+// to where it was taken from; when that is an operand of an operator construct under evaluation (a field of an AST node
+// that records an Operator, of one of the ast interface types: InfixExp.Left, ...), the error about the construct's own operation — a division
+// by zero, a type mismatch between the two operands — is reported on the line where the operand's token ends, which
+// is not the construct's line as soon as the expression spans lines.
+func (m *Model) RunErrNode(s *Sink, rule string) {
+	ne := m.Method("evaluator", "Evaluator", "newError")
+	if ne == nil {
+		s.Undecided(rule, "evaluator.newError", "-", "the evaluator's error constructor was not found")
+		return
+	}
+	isAstIface := func(t types.Type) bool {
+		n, ok := t.(*types.Named)
+		if !ok || n.Obj().Pkg() == nil || shortPkg(n.Obj().Pkg().Path()) != "ast" {
+			return false
+		}
+		_, isI := n.Underlying().(*types.Interface)
+		return isI
+	}
+	evalFn := m.Method("evaluator", "Evaluator", "Eval")
+	if evalFn == nil {
+		s.Undecided(rule, "evaluator.Eval", "-", "the evaluator's dispatch was not found")
+		return
+	}
+	type origin struct {
+		operand string // "InfixExp.Left" when the node is an operand of a construct
+	}
+	var trace func(v ssa.Value, d int, seen map[ssa.Value]bool) []origin
+	trace = func(v ssa.Value, d int, seen map[ssa.Value]bool) []origin {
+		if v == nil || seen[v] || d > 8 {
+			return nil
+		}
+		seen[v] = true
+		switch x := v.(type) {
+		case *ssa.MakeInterface:
+			return trace(x.X, d, seen)
+		case *ssa.ChangeInterface:
+			return trace(x.X, d, seen)
+		case *ssa.ChangeType:
+			return trace(x.X, d, seen)
+		case *ssa.TypeAssert:
+			if x.Parent() == evalFn {
+				return []origin{{}} // the dispatch: this is the construct under evaluation
+			}
+			return trace(x.X, d, seen)
+		case *ssa.Extract:
+			return trace(x.Tuple, d, seen)
+		case *ssa.Phi:
+			var out []origin
+			for _, e := range x.Edges {
+				out = append(out, trace(e, d+1, seen)...)
+			}
+			return out
+		case *ssa.UnOp:
+			if fa, ok := x.X.(*ssa.FieldAddr); ok && x.Op == token.MUL {
+				if isAstIface(x.Type()) {
+					if pn := ptrNamed(fa.X.Type()); pn != nil && pn.Obj().Pkg() != nil && shortPkg(pn.Obj().Pkg().Path()) == "ast" && hasOperatorField(pn) {
+						return []origin{{operand: pn.Obj().Name() + "." + fieldName(fa.X.Type(), fa.Field)}}
+					}
+				}
+			}
+			return []origin{{}}
+		case *ssa.Parameter:
+			h := x.Parent()
+			if h == evalFn {
+				return []origin{{}} // whatever is handed to Eval is the construct under evaluation
+			}
+			idx := -1
+			for i, q := range h.Params {
+				if q == x {
+					idx = i
+				}
+			}
+			node := m.CG.Nodes[h]
+			if idx < 0 || node == nil {
+				return []origin{{}}
+			}
+			var out []origin
+			for _, e := range node.In {
+				if e.Site == nil || e.Site.Common().StaticCallee() != h || idx >= len(e.Site.Common().Args) {
+					continue
+				}
+				out = append(out, trace(e.Site.Common().Args[idx], d+1, seen)...)
+			}
+			return out
+		}
+		return []origin{{}}
+	}
+	n := 0
+	for _, fn := range m.ModFns {
+		if fn.Blocks == nil || shortPkg(fnPkgPath(fn)) != "evaluator" {
+			continue
+		}
+		for _, b := range fn.Blocks {
+			for _, in := range b.Instrs {
+				c, ok := in.(*ssa.Call)
+				if !ok || c.Call.StaticCallee() != ne || len(c.Call.Args) < 2 {
+					continue
+				}
+				n++
+				key := fmt.Sprintf("%s|error about %s carries the construct's own token", fnKey(fn), valueDesc(c.Call.Args[1]))
+				bad := ""
+				for _, o := range trace(c.Call.Args[1], 0, map[ssa.Value]bool{}) {
+					if o.operand != "" && bad == "" {
+						bad = o.operand
+					}
+				}
+				if bad != "" {
+					s.Violation(rule, key, m.InstrPos(c), "the error raised at %s is given the node %s — an operand of the construct being evaluated, not the construct: a fault of the construct's own operation (division by zero, operands of different types) is reported on the line where that operand ends, not on the line of the construct's token (`{{ 10\\n\\n/ 0 }}` reports line 1, the operator is on line 3)", m.InstrPos(c), bad)
+				} else {
+					s.OK(rule, key, m.InstrPos(c), "the node is the construct under evaluation (or a construct of its own: an insert, a statement), not one of its operands")
+				}
+			}
+		}
+	}
+	s.RequireMin(rule, 20, "about 30 error sites in the evaluator")
+	_ = n
+}
